@@ -81,8 +81,13 @@ impl Params {
         let n = self.lens[(x & 7) as usize];
         (0..n).map(|i| (x.wrapping_add(i).wrapping_mul(3)) & 7).collect()
     }
+    /// inner iterable made by a `flat_map` closure
     pub fn inner(self, x: u8) -> Inner {
-        Inner { items: self.inner_items(x), vague: self.vague_inner }
+        Inner { items: self.inner_items(x), vague: self.vague_inner, origin: 0 }
+    }
+    /// inner iterable that is an item on its way into `flatten`
+    pub fn inner_fl(self, x: u8) -> Inner {
+        Inner { items: self.inner_items(x), vague: self.vague_inner, origin: 1 }
     }
     pub fn insp(self, x: &u8) {
         RT.with(|r| r.inspect.set(r.inspect.get().wrapping_mul(31).wrapping_add(*x as u64 + 1)));
@@ -92,10 +97,17 @@ impl Params {
     }
     /// inner stream for item x (unfused: must not be polled after it returned `None`)
     pub fn st(self, x: u8) -> SimStream<u8, Un> {
+        self.st_o(x, 0)
+    }
+    /// inner stream that is an item on its way into `flatten_stream`
+    pub fn st_fl(self, x: u8) -> SimStream<u8, Un> {
+        self.st_o(x, 1)
+    }
+    fn st_o(self, x: u8, origin: u8) -> SimStream<u8, Un> {
         let items = self.inner_items(x);
         let pend: Vec<u8> = (0..=items.len()).map(|i| self.st_pend[((x as usize) + i) & 7]).collect();
         let (wl, wh) = if self.vague_inner { (1, None) } else { (0, Some(0)) };
-        SimStream::new_inner(Script::new(7, items, pend, wl, wh, self.wake))
+        SimStream::new_inner(Script::new(7, items, pend, wl, wh, self.wake), origin)
     }
 }
 
@@ -190,12 +202,12 @@ impl<'g, K: CtxKind, Z: FuseKind> SrcP<'g, K, Z> {
     /// items are inner iterables (for `flatten`)
     pub fn inners(self) -> SimPull<Inner, K, Z> {
         let p = self.g.p;
-        SimPull::new(self.d().script(self.i as u8, self.d().items.iter().map(|x| p.inner(*x)).collect()))
+        SimPull::new(self.d().script(self.i as u8, self.d().items.iter().map(|x| p.inner_fl(*x)).collect()))
     }
     /// items are inner streams (for `flatten_stream`)
     pub fn streams(self) -> SimPull<SimStream<u8, Un>, K, Z> {
         let p = self.g.p;
-        SimPull::new(self.d().script(self.i as u8, self.d().items.iter().map(|x| p.st(*x)).collect()))
+        SimPull::new(self.d().script(self.i as u8, self.d().items.iter().map(|x| p.st_fl(*x)).collect()))
     }
     /// `(k, v)` pairs: k = x & 3, v = x >> 2 ... used by keyed terminals and join shapes
     pub fn kvs(self) -> SimPull<(u8, u8), K, Z> {
@@ -236,11 +248,11 @@ impl<'g> SrcR<'g> {
     }
     pub fn inners(self) -> std::vec::IntoIter<Inner> {
         let p = self.g.p;
-        self.d().items.iter().map(|x| p.inner(*x)).collect::<Vec<_>>().into_iter()
+        self.d().items.iter().map(|x| p.inner_fl(*x)).collect::<Vec<_>>().into_iter()
     }
     pub fn streams(self) -> std::vec::IntoIter<SimStream<u8, Un>> {
         let p = self.g.p;
-        self.d().items.iter().map(|x| p.st(*x)).collect::<Vec<_>>().into_iter()
+        self.d().items.iter().map(|x| p.st_fl(*x)).collect::<Vec<_>>().into_iter()
     }
     pub fn kvs(self) -> std::vec::IntoIter<(u8, u8)> {
         self.d().items.iter().map(|x| (x & 3, x >> 2)).collect::<Vec<_>>().into_iter()
